@@ -222,6 +222,40 @@ pub fn one_op(env: &Env, r: &mut Rng, viol: &mut Vec<String>, stats: &mut Vec<St
     }
 }
 
+/// compile-time sized aggregates through a connection and directly
+pub fn shapes_case(r: &mut Rng) -> Vec<String> {
+    use crate::abitraits::{Shapes, ShapesImpl};
+    let mut out = Vec::new();
+    let conn = match catch_unwind(AssertUnwindSafe(|| AbiConnection::<dyn Shapes>::from_boxed_trait(Box::new(ShapesImpl)))) {
+        Ok(Ok(c)) => c,
+        Ok(Err(e)) => return vec![format!("!C09 shapes-connection-not-created got={}", err_class(&e))],
+        Err(_) => return vec![format!("!C09 shapes-connection-panics got={}", panic_class(&last_panic()))],
+    };
+    let d = ShapesImpl;
+    let f = |r: &mut Rng| f32::from_bits((r.next() as u32) & 0x7f7f_ffff);
+    let mut run = |name: &str, body: &mut dyn FnMut() -> bool| {
+        out.push(format!("#stat op-shapes-{} 1", name));
+        match catch_unwind(AssertUnwindSafe(body)) {
+            Ok(true) => {}
+            Ok(false) => out.push(format!("!C09 call-differs-from-direct op=shapes-{}", name)),
+            Err(_) => out.push(format!("!C09 call-panicked op=shapes-{} got={}", name, panic_class(&last_panic()))),
+        }
+    };
+    let a = ((f(r), f(r)), (f(r), f(r)));
+    run("nested", &mut || conn.nested(a) == d.nested(a));
+    let x = r.next().to_le_bytes();
+    let (a, b) = (([x[0], x[1], x[2], x[3]], [x[4], x[5], x[6], x[7]]), (r.next() as u8, (r.next() as u32, r.next() as u16)));
+    run("arrs", &mut || conn.arrs(a, b) == d.arrs(a, b));
+    let (a, b, c) = ((r.next() as u8, r.next()), ((r.next() as u8, r.next() as u8, r.next() as u8), r.next() as u32), ((r.next(), r.next()), (r.next(), r.next()), (r.next(), r.next())));
+    run("wide", &mut || conn.wide(a, b, c) == d.wide(a, b, c));
+    let a = if r.chance(1, 3) { None } else { Some((r.next() as u32, r.next() as u8)) };
+    let b = (r.chance(1, 2), char::from_u32((r.next() % 0xD000) as u32).unwrap_or('x'));
+    run("opt", &mut || conn.opt(a, b) == d.opt(a, b));
+    let k = r.next() as u8;
+    run("unit_like", &mut || conn.unit_like((), ((), k)) == d.unit_like((), ((), k)));
+    out
+}
+
 /// C09: `n` sessions of `ops` operations each
 pub fn vals_cases(r: &mut Rng, n: usize, ops: usize) -> Vec<String> {
     let mut out = Vec::new();
@@ -231,6 +265,7 @@ pub fn vals_cases(r: &mut Rng, n: usize, ops: usize) -> Vec<String> {
             let probe = crate::abi::refused_interface_probe();
             out.push(format!("#stat refused-interface-{} 1", probe.trim_matches(|c| c == '(' || c == ')').split(' ').next().unwrap_or("")));
         }
+        out.extend(shapes_case(r));
         let env = match new_env() {
             Ok(e) => e,
             Err(e) => {
